@@ -1,730 +1,905 @@
-"""C20 -- VTK output: declared counts equal records written; writing does not change the writer.
+"""C20 -- VTK output: the file is a well-formed legacy-VTK unstructured grid whose counts agree; writing does not change the writer.
 
-  D1  purity (T11): no method reachable from write() stores into, or calls a mutating method on, the writer's
-      accumulated state (attributes set in __init__ / add_*), directly or through an alias;
-  D2  symbolic lengths: an abstract interpreter over record counts (symbols N_out = written points,
-      N_nodes, N_el, N_sph, N_ce, K) evaluates every section writer: the declared count of each header equals the
-      records emitted until the next header; POINTS == POINT_DATA; CELLS == CELL_TYPES == CELL_DATA; the CELLS
-      size equals the integers written; every field admitted by add_nodal_field / add_cell_field has the
-      record count of its section after padding.
-Not decided: numeric round trip of values, formatting of numbers, that connectivity indices refer to written
-points for element orders whose output nodes are a subset (depends on mesh numbering data).
+The rules no longer look for statements of a particular shape.  optimism/VTKWriter.py is *interpreted* on a symbolic writer by the
+symbolic-shape interpreter of rules/C20_eval.py (integers = polynomials over size symbols, arrays = shapes, text = abstract token
+sequences, heap objects with identity and a mutation log; helper methods / module functions / NamedTuples / properties / comprehensions /
+functools.partial / dict dispatch tables are simply executed).  For every *situation* (element order 1..4; no / some marker spheres;
+no / empty / some contact edges; no / some nodal fields; no / some cell fields; every field kind x every VTK data type as an entry class
+of the field dictionaries) the public API is driven as a user would:
+
+    w = VTKWriter(mesh, name); w.add_sphere(..)*; w.add_contact_edges(..)*; w.add_nodal_field(..)*; w.add_cell_field(..)*; w.write(); w.write()
+
+(repeated calls are summarised by an inductively verified template of the writer state, see `repeat_calls`) and the text written to the file
+object is read back by an abstract reader of the VTK grammar (rules/C20_text.py).  Roles are found by behaviour (which attribute grows
+with add_sphere, which dictionary a field lands in), never by a name; only the public API names are anchors.
+
+  D2/T9  per situation: header lines; section order, no duplicate section; POINTS n: n lines, 3n numbers; CELLS n size: n lines, size
+         integers; CELL_TYPES n: n numbers; POINT_DATA == POINTS; CELL_TYPES == CELLS == CELL_DATA; every admitted field is written exactly
+         once, under the keyword of its kind and with its data type; every array holds n x (1 | 3 | 9) numbers; add_*_field admit only
+         arrays with one record per written point / cell;
+  D2/T6  the padding appended per sphere / contact edge is exactly one record of the field's kind, for every data type (decided from the
+         written arrays in the situations with spheres / contact edges, and directly on default_values(fieldType, dataType) when that public
+         function exists);
+  D1/T11 the second write() emits the same abstract file as the first; no function running under write() mutates an object that belonged
+         to the writer before the call (mutation log + aliasing).
+Modules: C20_interp (values), C20_eval (statements, calls, loop summarisation, sign reasoning), C20_ops (expressions, builtins, NumPy / str
+vocabulary), C20_np (shape semantics), C20_text (abstract text, tokeniser, VTK grammar reader), C20_variants (self-test restructurings).
+REFUTED is reported only for a derived contradiction (a count polynomial that differs, a token that is not where the grammar needs it, a
+NumPy call that raises, a mutation of writer state that changes the second file).  Whatever the interpreter does not model is UNDECIDED.
+Not decided: numeric values / number formatting, that connectivity indices refer to written points (mesh numbering data).
 """
 from __future__ import annotations
 
 import ast
+import itertools
 
-from optilint.model import dotted, walk_local, FuncVal
 from optilint.core import Incomplete
-from optilint.expr import Algebra, NotPolynomial, Rat, Poly
-from .common import src, same, calls_in, const_value, facts_at
-from optilint.cfg import cfg_of
+from optilint.expr import Poly
+from .C20_interp import (Int, Scalar, Arr, Str, Key, EnumVal, UserClass, NTInst, Instance, ListV, DictV, FileObj, Func, Env, Undecidable,
+                         ProgramError, PC, PS, ZERO, ONE, pconst)
+from .C20_eval import Interp
+from . import C20_text as T
+from . import C20_np as N
 
 LEVEL = "other"
-RULE_TEXT = ("obligations = (method reachable from write() x state attribute not written) + (section header x declared count == "
-             "records emitted) + (pair of sibling headers x equal counts) + (field kind x record count after padding)")
-EXPLANATION = ("Static analysis of optimism/VTKWriter.py: effect analysis (who writes self.* under write()) with alias tracking, and an "
-               "abstract interpretation of array row/record counts as exact polynomials over symbolic sizes, comparing each declared "
-               "count with the records written. Values and number formatting are not analysed.")
+RULE_TEXT = ("obligations = situations (element order x spheres x contact edges x nodal fields x cell fields, field kind x data type as entry classes) "
+             "x (grammar / count equalities of the abstract file written by the interpreted writer) + (padding record x field kind x data type) "
+             "+ (function running under write() x no mutation of writer state) + (second write == first write)")
+EXPLANATION = ("Static analysis of optimism/VTKWriter.py by abstract interpretation: the source is interpreted (never imported or run) on symbolic "
+               "sizes; integers are exact polynomials, arrays are shapes with NumPy's shape semantics, text is an abstract token sequence, loops "
+               "with symbolic trip counts are summarised by verified linear extrapolation; the abstract file is read back by an abstract reader of "
+               "the legacy-VTK grammar; purity comes from a mutation log with aliasing and from comparing two consecutive writes. "
+               "Values and number formatting are not analysed.")
 
 V = "optimism.VTKWriter"
-MUTATORS = {"append", "extend", "update", "pop", "popitem", "clear", "insert", "remove", "setdefault", "sort", "reverse", "__setitem__", "add", "discard"}
+R9, R6, R1 = "D2/T9-symbolic-lengths", "D2/T6-padding-record-shape", "D1/T11-write-is-pure"
+COMPS = {"SCALARS": 1, "VECTORS": 3, "TENSORS": 9}
+VARIANTS = [("SCALARS(n,)", "SCALARS", ()), ("SCALARS(n,1)", "SCALARS", (1,)), ("VECTORS(n,2)", "VECTORS", (2,)), ("VECTORS(n,3)", "VECTORS", (3,)),
+            ("TENSORS(n,2,2)", "TENSORS", (2, 2)), ("TENSORS(n,3,3)", "TENSORS", (3, 3))]
 
 
-def run(ctx):
-    ctx.need_module(V)
-    cls = ctx.need(f"{V}:VTKWriter")
-    ctx.guard(d1, ctx, cls)
-    ctx.guard(d2, ctx, cls)
-    ctx.guard(d2_padding, ctx)
-    ctx.trust("numpy shape semantics of zeros/tile/concatenate/vstack/hstack/reshape used by the writer (table in rules/C20.py)")
-    ctx.assume("one element type per mesh; fields are admitted only through add_nodal_field / add_cell_field")
+# ================================================================================================== aggregation of verdicts
+
+class Agg:
+    def __init__(self):
+        self.items = {}
+
+    def add(self, rule, construct, verdict, detail, prov=None, sit=""):
+        it = self.items.setdefault((rule, construct), {"ok": [], "bad": [], "und": [], "prov": None})
+        it[{True: "ok", False: "bad", None: "und"}[verdict]].append((detail, sit, prov))
+        if prov is not None and prov[0] is not None and (it["prov"] is None or verdict is False):
+            it["prov"] = prov
+
+    def emit(self, ctx, fallback_scope):
+        for (rule, construct), it in self.items.items():
+            pick = it["bad"] or it["und"] or it["ok"]
+            detail, sit, prov = pick[0]
+            prov = prov if (prov is not None and prov[0] is not None) else it["prov"]
+            scope = prov[0].scope if prov is not None and isinstance(prov[0], Func) and prov[0].scope is not None else fallback_scope
+            node = prov[1] if prov is not None and scope is not fallback_scope else None
+            nsit = len({s for (_d, s, _p) in it["ok"] + it["bad"] + it["und"]})
+            if it["bad"]:
+                nb = len({s for (_d, s, _p) in it["bad"]})
+                ctx.refuted(rule, scope, node, construct=construct, detail=f"{detail} [situation: {sit}; fails in {nb} of {nsit} situations]")
+            elif it["und"]:
+                ctx.undecided(rule, scope, node, construct=construct, detail=f"{detail} [situation: {sit}]")
+            else:
+                ctx.proved(rule, scope, node, construct=construct, detail=f"{detail} [{nsit} situation(s)]")
 
 
-def d2_padding(ctx):
-    """Records appended for spheres / contact edges are produced by default_values(fieldType, dataType): for every data-type branch the
-    padding record of a SCALARS / VECTORS / TENSORS field must have 1 / 3 / 3x3 components, like the records it is stacked under."""
-    rule = "D2/T6-padding-record-shape"
-    dv = ctx.need(f"{V}:default_values")
-    want = {"SCALARS": (), "VECTORS": (3,), "TENSORS": (3, 3)}
+# ================================================================================================== driving the public API
 
-    def shape(e):
-        if isinstance(e, (ast.Constant, ast.Name, ast.IfExp, ast.BinOp, ast.UnaryOp)):
-            return ()          # a scalar expression
-        if isinstance(e, ast.Call) and (dotted(e.func) or "").split(".")[-1] in ("array", "asarray", "zeros") and e.args:
-            a = e.args[0]
-            if (dotted(e.func) or "").endswith("zeros"):
-                if isinstance(a, ast.Tuple):
-                    return tuple(const_value(x) for x in a.elts)
-                return (const_value(a),)
-            return shape(a)
-        if isinstance(e, (ast.List, ast.Tuple)):
-            subs = {shape(x) for x in e.elts}
-            if len(subs) != 1:
-                return None
-            sub_ = subs.pop()
-            return None if sub_ is None else (len(e.elts),) + sub_
-        return None
-    cfg = cfg_of(dv)
-    seen = {}
-    for r in cfg.returns():
-        facts = facts_at(cfg, r)
-        ft = None
-        branch = []
-        for (a, pol, c) in facts:
-            t = src(a)
-            if isinstance(a, ast.Compare) and len(a.ops) == 1 and isinstance(a.ops[0], ast.Eq) and pol:
-                for k in want:
-                    if t.endswith("." + k):
-                        ft = k
-            if ft is None or not t.endswith("." + (ft or "")):
-                branch.append(("" if pol else "not ") + t[:60])
-        if ft is None:
-            continue
-        key = (ft, " & ".join(b for b in branch if "fieldType" not in b) or "first branch")
-        got = shape(r.ast.value)
-        seen.setdefault(ft, []).append(got)
-        ctx.decide(rule, got == want[ft], dv, r.ast, construct=f"{ft}[{key[1]}]", detail=f"padding record of shape {got}",
-                   bad_detail=f"default_values returns a record of shape {got} for {ft} fields in the branch [{key[1]}]; records of such fields have shape "
-                              f"{want[ft]}: the padded array would not hold one record per point/cell")
-    n_br = {k: len(v) for k, v in seen.items()}
-    if set(n_br) != set(want) or len(set(n_br.values())) != 1:
-        ctx.refuted(rule, dv, None, construct="all-field-types-in-every-branch", detail=f"padding records per field type: {n_br}; every data-type branch must cover SCALARS, VECTORS and TENSORS")
+class Situation:
+    def __init__(self, degree, sph, ce, nodal, cell):
+        self.degree, self.sph, self.ce, self.nodal, self.cell = degree, sph, ce, nodal, cell
+
+    def __str__(self):
+        return (f"element order {self.degree}, {'no' if self.sph == '0' else 'some'} spheres, "
+                f"{ {'none': 'no', '0': 'an empty array of', '+': 'some'}[self.ce] } contact edges, "
+                f"{'some' if self.nodal else 'no'} nodal fields, {'some' if self.cell else 'no'} cell fields")
 
 
-def _methods(cls):
-    return {c.name: c for c in cls.children if c.kind == "function"}
+def situations():
+    """element order 2 and 3: the full product of the other dimensions; order 1 and 4: the richest situation.  `rich` situations put every
+    (input shape x data type) entry class into the field dictionaries, the others a reduced set of data types (the default of the
+    dataType parameter, the first and the last member): data type, padding and kind interact in the rich ones, the rest varies what is
+    independent of the data type."""
+    out = []
+    for degree in (2, 3):
+        for sph, ce, nodal, cell in itertools.product(("0", "+"), ("none", "0", "+"), (False, True), (False, True)):
+            s = Situation(degree, sph, ce, nodal, cell)
+            s.rich = degree == 3 and nodal and cell
+            out.append(s)
+    for degree in (1, 4):
+        s = Situation(degree, "+", "+", True, True)
+        s.rich = False
+        out.append(s)
+    return out
 
 
-def _write_cone(ctx, cls):
-    meths = _methods(cls)
-    if "write" not in meths:
-        raise Incomplete("VTKWriter.write not found")
-    seen, work = [], ["write"]
-    order = []
-    while work:
-        m = work.pop(0)
-        if m in seen or m not in meths:
-            continue
-        seen.append(m)
-        sc = meths[m]
-        for c in calls_in(sc):
-            if isinstance(c.func, ast.Attribute) and isinstance(c.func.value, ast.Name) and c.func.value.id == sc.params()[0] \
-                    and c.func.attr in meths:
-                work.append(c.func.attr)
-    return [meths[m] for m in seen]
+def make_mesh(I, degree):
+    Mesh = UserClass("Mesh", None)
+    Mesh.open_world = True
+    PE = UserClass("ParentElement", None)
+    PE.open_world = True
+    mesh, pe = Instance(Mesh), Instance(PE)
+    nn, ne = I.sym("N_nodes", 1), I.sym("N_el", 1)
+    ns = nn if degree == 1 else I.sym("N_simplexNodes", 1)       # a linear mesh has no other nodes than the simplex vertices
+    npe = PC((degree + 1) * (degree + 2) // 2)                    # nodes of a triangle of that order
+    mesh.attrs.update(coords=Arr((nn, PC(2))), conns=Arr((ne, npe)), simplexNodesOrdinals=Arr((ns,)), parentElement=pe)
+    pe.attrs.update(degree=Int(degree), vertexNodes=Arr((PC(3),)))
+    return mesh
 
 
-# ------------------------------------------------------------------ D1
-
-def d1(ctx, cls):
-    rule = "D1/T11-write-is-pure"
-    meths = _methods(cls)
-    state = set()
-    for m in meths.values():
-        if m.name == "__init__" or m.name.startswith("add_"):
-            selfn = m.params()[0]
-            for st in walk_local(m.node):
-                tg = st.targets if isinstance(st, ast.Assign) else [st.target] if isinstance(st, (ast.AugAssign, ast.AnnAssign)) else []
-                for t in tg:
-                    base = t
-                    while isinstance(base, ast.Subscript):
-                        base = base.value
-                    if isinstance(base, ast.Attribute) and isinstance(base.value, ast.Name) and base.value.id == selfn:
-                        state.add(base.attr)
-    if len(state) < 5:
-        raise Incomplete(f"writer state attributes found: {sorted(state)}")
-    cone = _write_cone(ctx, cls)
-    if len(cone) < 6:
-        raise Incomplete(f"only {len(cone)} methods reachable from write()")
-    for m in cone:
-        selfn = m.params()[0]
-        aliases = {}        # local name -> state attribute it aliases (no copy)
-        bad = []
-
-        def root_state(e):
-            """state attribute that expression e refers into (self.X, self.X[...], alias, alias.attr ...), else None"""
-            while isinstance(e, (ast.Subscript, ast.Attribute)):
-                if isinstance(e, ast.Attribute) and isinstance(e.value, ast.Name) and e.value.id == selfn:
-                    return e.attr if e.attr in state else None
-                e = e.value
-            if isinstance(e, ast.Name) and e.id in aliases:
-                return aliases[e.id]
-            return None
-        for st in walk_local(m.node):
-            if isinstance(st, ast.Assign):
-                # alias creation: name = self.X  |  name = self.X[...]  |  name = alias[...]   (no call => no copy)
-                if len(st.targets) == 1 and isinstance(st.targets[0], ast.Name):
-                    v = st.value
-                    if isinstance(v, (ast.Attribute, ast.Subscript)):
-                        r = root_state(v)
-                        if r:
-                            aliases[st.targets[0].id] = r
-                        else:
-                            aliases.pop(st.targets[0].id, None)
-                    elif isinstance(v, ast.Name) and v.id in aliases:
-                        aliases[st.targets[0].id] = aliases[v.id]
-                    else:
-                        aliases.pop(st.targets[0].id, None)
-                for t in st.targets:
-                    if isinstance(t, (ast.Attribute, ast.Subscript)):
-                        if isinstance(t, ast.Attribute) and isinstance(t.value, ast.Name) and t.value.id == selfn:
-                            bad.append((st, f"assigns self.{t.attr}"))
-                        else:
-                            r = root_state(t)
-                            if r:
-                                bad.append((st, f"stores into self.{r}"))
-            elif isinstance(st, ast.AugAssign):
-                t = st.target
-                if isinstance(t, ast.Attribute) and isinstance(t.value, ast.Name) and t.value.id == selfn:
-                    bad.append((st, f"updates self.{t.attr}"))
-                elif isinstance(t, (ast.Subscript, ast.Attribute)):
-                    r = root_state(t)
-                    if r:
-                        bad.append((st, f"updates an element of self.{r}"))
-                elif isinstance(t, ast.Name) and t.id in aliases:
-                    bad.append((st, f"in-place update of an alias of self.{aliases[t.id]}"))
-            elif isinstance(st, ast.Call) and isinstance(st.func, ast.Attribute) and st.func.attr in MUTATORS:
-                r = root_state(st.func.value) if not isinstance(st.func.value, ast.Name) else aliases.get(st.func.value.id)
-                if isinstance(st.func.value, ast.Attribute) and isinstance(st.func.value.value, ast.Name) and st.func.value.value.id == selfn \
-                        and st.func.value.attr in state:
-                    r = st.func.value.attr
-                if r:
-                    bad.append((st, f"calls .{st.func.attr}() on self.{r}"))
-        if not bad:
-            ctx.proved(rule, m, None, construct=f"{m.name}:no-state-write", detail=f"{m.name} writes none of {sorted(state)}")
-        for (st, why) in bad:
-            ctx.refuted(rule, m, st, construct=f"{m.name}:{why}",
-                        detail=f"{m.name}, which runs under write(), {why} (`{src(st)[:80]}`): writing changes the writer, so a second write() differs")
+def _api(I, w, name):
+    return I.getattr_(w, name, None)
 
 
-# ------------------------------------------------------------------ D2: symbolic lengths
+def repeat_calls(I, w, mname, mkargs, stem):
+    """State of the writer after one or more calls of w.<mname>: the first call is executed, then the counts it changes are generalised to
+    template symbols until one more call (every path of it) maps the template into itself.  -> {symbol name: Poly}"""
+    env = Env()
+    env.vars["w"] = w
 
-class Arr:
-    """Abstract array: number of records along axis 0 (Rat) and, if known, entries per record (Rat)."""
-    def __init__(self, rows, cols=None):
-        self.rows, self.cols = rows, cols
+    def snap():
+        sig, P = I.scan(env)
+        return sig, [I.norm(p) for p in P]
 
+    I.call(_api(I, w, mname), mkargs(), {}, None)           # first call: must be decided (no data-dependent branch on the fresh writer)
+    sig1, tmpl = snap()
+    syms = {}
 
-class Rec:
-    """Field record: data array."""
-    def __init__(self, data):
-        self.data = data
+    def explore():
+        def thunk():
+            sig, _ = I.scan(env, list(tmpl))
+            if sig != sig1:
+                raise Undecidable(f"{mname}: the writer state changes its structure between calls")
+            saved = I.facts()
+            try:
+                I.call(_api(I, w, mname), mkargs(), {}, None)
+                return snap()
+            finally:
+                I.restore(saved)
+        return I.run_paths(thunk)
 
-
-class Unknown:
-    pass
-
-
-UNK = Unknown()
-
-
-class LenEval:
-    def __init__(self, selfn, A: Algebra):
-        self.s = selfn
-        self.A = A
-        self.env = {}
-        self.problems = []
-        self.call_method = None
-        self.rets = []
-
-    def sym(self, n):
-        return self.A.atom(n)
-
-    def state(self, attr):
-        A = self.A
-        table = {"spheres": Arr(self.sym("N_sph")), "sphereRadii": Arr(self.sym("N_sph")),
-                 "contactEdges": Arr(self.sym("N_ce"), A.const(2)), "elConn": Arr(self.sym("K")),
-                 "outputNodes": Arr(self.sym("N_out")),
-                 # field dictionaries: every admitted entry has the count its admission guard demands (checked separately)
-                 "nodalFields": {"*": Rec(Arr(self.sym("N_out"))), "kind": "nodalFields"},
-                 "cellFields": {"*": Rec(Arr(self.sym("N_el"))), "kind": "cellFields"}}
-        return table.get(attr, UNK)
-
-    def ev(self, e):
-        A = self.A
-        s = self.s
-        d = dotted(e) if isinstance(e, (ast.Attribute, ast.Name)) else None
-        if isinstance(e, ast.Constant) and isinstance(e.value, (int, float)) and not isinstance(e.value, bool):
-            return A.const(e.value)
-        if isinstance(e, ast.Name):
-            return self.env.get(e.id, UNK)
-        if d == f"{s}.mesh.coords":
-            return Arr(self.sym("N_nodes"), A.const(2))
-        if d == f"{s}.mesh.conns":
-            return Arr(self.sym("N_el"), self.sym("NPE"))
-        if isinstance(e, ast.Attribute):
-            if isinstance(e.value, ast.Name) and e.value.id == s:
-                return self.state(e.attr)
-            base = self.ev(e.value)
-            if e.attr == "data" and isinstance(base, Rec):
-                return base.data
-            if e.attr == "size" and isinstance(base, Arr) and base.cols is not None:
-                return A.norm(base.rows * base.cols)
-            if e.attr == "size" and isinstance(base, Arr):
-                return UNK
-            if e.attr == "shape" and isinstance(base, Arr):
-                return [base.rows, base.cols if base.cols is not None else UNK]
-            return UNK
-        if isinstance(e, ast.Subscript):
-            base = self.ev(e.value)
-            if isinstance(base, list) and isinstance(e.slice, ast.Constant) and isinstance(e.slice.value, int) \
-                    and -len(base) <= e.slice.value < len(base):
-                return base[e.slice.value]
-            # X.shape[i]
-            if isinstance(e.value, ast.Attribute) and e.value.attr == "shape":
-                arr = self.ev(e.value.value)
-                i = e.slice.value if isinstance(e.slice, ast.Constant) else None
-                if isinstance(arr, Arr):
-                    if i == 0:
-                        return arr.rows
-                    if i == 1 and arr.cols is not None:
-                        return arr.cols
-                return UNK
-            idx = e.slice
-            if isinstance(base, Arr):
-                # rows selected by an index array / all rows with column selection
-                if isinstance(idx, ast.Tuple) and len(idx.elts) == 2 and isinstance(idx.elts[0], ast.Slice) and idx.elts[0].lower is None \
-                        and idx.elts[0].upper is None:
-                    sel = self.ev(idx.elts[1])
-                    return Arr(base.rows, sel.rows if isinstance(sel, Arr) else None)
-                sel = self.ev(idx)
-                if isinstance(sel, Arr):
-                    return Arr(sel.rows, base.cols)
-                return UNK
-            if isinstance(base, dict):
-                return base.get("*", UNK)
-            return UNK
-        if isinstance(e, ast.BinOp):
-            a, b = self.ev(e.left), self.ev(e.right)
-            if isinstance(a, Rat) and isinstance(b, Rat):
-                if isinstance(e.op, ast.Add):
-                    return A.norm(a + b)
-                if isinstance(e.op, ast.Sub):
-                    return A.norm(a - b)
-                if isinstance(e.op, ast.Mult):
-                    return A.norm(a * b)
-            return UNK
-        if isinstance(e, ast.Tuple):
-            return [self.ev(x) for x in e.elts]
-        if isinstance(e, ast.Call):
-            f = dotted(e.func) or ""
-            last = f.split(".")[-1]
-            args = e.args
-            if last == "len" and args:
-                a = self.ev(args[0])
-                return a.rows if isinstance(a, Arr) else UNK
-            if last in ("zeros", "ones", "empty") and args:
-                sh = self.ev(args[0])
-                if isinstance(sh, list) and sh and isinstance(sh[0], Rat):
-                    return Arr(sh[0], sh[1] if len(sh) > 1 and isinstance(sh[1], Rat) else A.const(1))
-                if isinstance(sh, Rat):
-                    return Arr(sh, A.const(1))
-                return UNK
-            if last == "tile" and len(args) == 2:
-                reps = self.ev(args[1])
-                if isinstance(reps, list) and isinstance(reps[0], Rat):
-                    return Arr(reps[0], reps[1] if len(reps) > 1 and isinstance(reps[1], Rat) else A.const(1))
-                return UNK
-            if last == "concatenate" and args:
-                parts = self.ev(args[0])
-                axis = None
-                for k in e.keywords:
-                    if k.arg == "axis" and isinstance(k.value, ast.Constant):
-                        axis = k.value.value
-                if isinstance(parts, list) and all(isinstance(p, Arr) for p in parts):
-                    if axis == 1:
-                        for p in parts[1:]:
-                            if not A.equal(p.rows, parts[0].rows):
-                                self.problems.append((e, f"concatenate(axis=1) of arrays with {parts[0].rows!r} and {p.rows!r} rows"))
-                        cols = None
-                        if all(p.cols is not None for p in parts):
-                            cols = parts[0].cols
-                            for p in parts[1:]:
-                                cols = A.norm(cols + p.cols)
-                        return Arr(parts[0].rows, cols)
-                    rows = parts[0].rows
-                    for p in parts[1:]:
-                        rows = A.norm(rows + p.rows)
-                    return Arr(rows, parts[0].cols)
-                return UNK
-            if last in ("vstack", "hstack") and args:
-                parts = self.ev(args[0])
-                if isinstance(parts, list):
-                    rows = None
-                    for p in parts:
-                        r = p.rows if isinstance(p, Arr) else (A.const(1) if p == "default-record" else None)
-                        if r is None:
-                            return UNK
-                        rows = r if rows is None else A.norm(rows + r)
-                    return Arr(rows, parts[0].cols if isinstance(parts[0], Arr) else None)
-                return UNK
-            if last == "default_values":
-                return "default-record"
-            if last in ("array", "asarray", "copy") and args:
-                return self.ev(args[0])
-            if last == "reshape" and isinstance(e.func, ast.Attribute):
-                base = self.ev(e.func.value)
-                if isinstance(base, Arr) and args:
-                    first = self.ev(args[0][0] if isinstance(args[0], ast.Tuple) and False else args[0])
-                    if isinstance(first, list):
-                        first = first[0]
-                    if isinstance(first, Rat):
-                        return Arr(first, None)
-                return UNK
-            if last == "dict" and args:
-                return self.ev(args[0])
-            if last == "range" and args:
-                n = self.ev(args[-1] if len(args) == 1 else args[1])
-                return Arr(n) if isinstance(n, Rat) else UNK
-            if last == "VTKFieldRecord":
-                a0 = args[0] if args else None
-                for k in e.keywords:
-                    if k.arg == "data":
-                        a0 = k.value
-                v = self.ev(a0) if a0 is not None else UNK
-                return Rec(v) if isinstance(v, Arr) else UNK
-            if last == "write_matrix_as_table" and args:
-                return self.ev(args[0])
-            # value-returning helper of the writer itself: interpreted on the abstract arguments
-            if isinstance(e.func, ast.Attribute) and isinstance(e.func.value, ast.Name) and e.func.value.id == s and self.call_method is not None:
-                return self.call_method(e.func.attr, [self.ev(a) for a in args], {k.arg: self.ev(k.value) for k in e.keywords if k.arg})
-            return UNK
-        return UNK
+    for _round in range(4):
+        outcomes = explore()
+        for o in outcomes:
+            if isinstance(o, Exception):
+                raise o
+            if o[0] != sig1 or len(o[1]) != len(tmpl):
+                raise Undecidable(f"{mname}: the writer state changes its structure between calls")
+        mism = {}
+        for k, t in enumerate(tmpl):
+            vals = tuple(o[1][k] for o in outcomes)
+            name = _sym_of(t, syms)
+            if name is not None:
+                continue
+            if any(v != t for v in vals):
+                mism.setdefault((t, vals), []).append(k)
+        if not mism:
+            # every template symbol must be mapped consistently in each outcome
+            for o in outcomes:
+                sigma = {}
+                for k, t in enumerate(tmpl):
+                    name = _sym_of(t, syms)
+                    if name is not None:
+                        if name in sigma and sigma[name] != o[1][k]:
+                            raise Undecidable(f"{mname}: counts that grew together stop agreeing")
+                        sigma[name] = o[1][k]
+            break
+        for (t, vals), slots in mism.items():
+            name = f"{stem}{'' if not syms else len(syms) + 1}"
+            init_pos = I.sign(t) == "pos"
+            s = I.sym(name, 1 if init_pos else 0, free=True)
+            syms[name] = (s, init_pos)
+            for k in slots:
+                tmpl[k] = s
+    else:
+        raise Undecidable(f"{mname}: no invariant template of the writer state found")
+    # lower bounds: keep >= 1 only if every call maps it to a positive value again (checked by one more exploration under the bound)
+    outcomes = explore()
+    for o in outcomes:
+        if isinstance(o, Exception):
+            raise o
+        for k, t in enumerate(tmpl):
+            name = _sym_of(t, syms)
+            if name is not None and I.sign(o[1][k]) not in ("pos", "nonneg", "zero"):
+                raise Undecidable(f"{mname}: a count may become negative")
+            if name is not None and I.lo[name] == 1 and I.sign(o[1][k]) != "pos":
+                raise Undecidable(f"{mname}: lower bound of {name} is not inductive")
+    I.scan(env, list(tmpl))
+    for name in syms:
+        I.free.discard(name)
+    return {name: s for name, (s, _p) in syms.items()}
 
 
-def _header_of(call):
-    """vtkFile.write('KEY {} ...'.format(a, b)) -> (KEY, [args])"""
-    if not (isinstance(call, ast.Call) and isinstance(call.func, ast.Attribute) and call.func.attr == "write" and call.args):
-        return None
-    a = call.args[0]
-    if isinstance(a, ast.Call) and isinstance(a.func, ast.Attribute) and a.func.attr == "format" and isinstance(a.func.value, ast.Constant) \
-            and isinstance(a.func.value.value, str):
-        key = a.func.value.value.split()[0] if a.func.value.value.split() else ""
-        if key in ("POINTS", "CELLS", "CELL_TYPES", "POINT_DATA", "CELL_DATA"):
-            return key, a.args
+def _sym_of(p, syms):
+    for name, (s, _pos) in syms.items():
+        if p == s:
+            return name
     return None
 
 
-class SectionRun:
-    """Abstractly executes the section writers in write() order, accumulating per header the declared
-    count and the records written after it."""
+def admit_fields(I, w, api, kinds, dtypes, agg, sit):
+    """call w.<api>(name, data, fieldType, dataType) once per entry class (input shape variant x data type) with a symbolic key"""
+    classes = []
+    mults = ZERO
+    for (label, ftname, tail) in VARIANTS:
+        ft = kinds.members.get(ftname)
+        if ft is None:
+            raise Undecidable(f"the field type enumeration has no member {ftname}")
+        for dt in _dtypes_for(I, w, api, dtypes, sit):
+            made = []
 
-    def __init__(self, ctx, cls, A):
-        self.ctx, self.cls, self.A = ctx, cls, A
-        self.meths = _methods(cls)
-        self.sections = []          # [dict(key, declared, extra, written Rat, scope, node)]
-        self.fields_written = []    # (section key, records Rat|None, scope, node)
-        self.dict_records = {}      # dict name -> records of each entry
-        self.unknown = []
+            def thunk():
+                kid = len(I.key_mult) + 1
+                mult = I.sym(f"n[{api}:{label}:{dt.name}]#{kid}", 0)
+                I.key_mult[kid] = mult
+                I.key_label[kid] = (label, ft, dt, api)
+                rows = I.fresh("rows", 0, True)
+                data = Arr((rows,) + tuple(PC(c) for c in tail))
+                n_log = len(I.log)
+                I.call(_api(I, w, api), [Key(kid), data, ft, dt], {}, None)
+                muts = I.log[n_log:]
+                stored = [m for m in muts if m[0] == "dict" and isinstance(m[2], Key) and m[2].kid == kid]
+                other = [m for m in muts if m not in stored and m[0] != "arr"]
+                if other:
+                    raise Undecidable(f"{api} changes writer state other than the entry of the field it adds ({other[0][0]} update)", other[0][3])
+                if stored:
+                    made.append((kid, mult))
+                return None
+            for res in I.run_paths(thunk):
+                if isinstance(res, ProgramError):
+                    continue                    # this input is rejected by an assertion: nothing admitted
+                if isinstance(res, Exception):
+                    raise res
+            for (kid, mult) in made:
+                classes.append(kid)
+                mults = mults + mult
+    if classes:
+        I.add_pos_fact(mults)
+    return classes
 
-    def cur(self):
-        return self.sections[-1] if self.sections else None
 
-    def add_rows(self, rows, ints_per_row=None):
-        c = self.cur()
-        if c is None:
-            return
-        if rows is None:
-            c["written"] = None
-        elif c["written"] is not None:
-            c["written"] = self.A.norm(c["written"] + rows)
-        if ints_per_row is not None and rows is not None and c.get("ints") is not None:
-            c["ints"] = self.A.norm(c["ints"] + rows * ints_per_row)
-        elif c.get("ints") is not None and ints_per_row is None:
-            c["ints"] = None
-
-    def run_method(self, m, ev=None, args=None):
-        selfn = m.params()[0]
-        ev = LenEval(selfn, self.A)
-        ev.call_method = self.call_value
-        # field dictionaries: every admitted entry has the guard's count
-        ev.env["__nodal__"] = None
-        if args:
-            ev.env.update(args)
-        self._block(m, ev, m.node.body, mult=self.A.const(1))
-        for (node, msg) in ev.problems:
-            self.ctx.refuted("D2/T9-symbolic-lengths", m, node, construct=f"{m.name}:shape", detail=msg)
-
-    def call_value(self, name, args, kw, depth=[0]):
-        """Abstract value returned by the helper method `name` (no section output expected from it)."""
-        m = self.meths.get(name)
-        if m is None or depth[0] > 4:
-            return UNK
-        params = m.params()
-        ev = LenEval(params[0], self.A)
-        ev.call_method = self.call_value
-        for p_, a in zip(params[1:], args):
-            ev.env[p_] = a
-        for k, v in kw.items():
-            if k in params:
-                ev.env[k] = v
-        depth[0] += 1
+def _dtypes_for(I, w, api, dtypes, sit):
+    members = list(dtypes.members.values())
+    if getattr(sit, "rich", True) or len(members) <= 3:
+        return members
+    pick = [members[0], members[-1]]
+    m = _api(I, w, api)
+    fn = m.func if hasattr(m, "func") else None
+    if isinstance(fn, Func) and fn.node.args.defaults:
         try:
-            self._block(m, ev, m.node.body, mult=self.A.const(1))
-        finally:
-            depth[0] -= 1
-        for (node, msg) in ev.problems:
-            self.ctx.refuted("D2/T9-symbolic-lengths", m, node, construct=f"{m.name}:shape", detail=msg)
-        # all return sites must agree on the abstract value
-        def same(a, b):
-            if isinstance(a, Rec) and isinstance(b, Rec):
-                return same(a.data, b.data)
-            if isinstance(a, Arr) and isinstance(b, Arr):
-                return self.A.equal(a.rows, b.rows) and ((a.cols is None and b.cols is None) or (a.cols is not None and b.cols is not None and self.A.equal(a.cols, b.cols)))
-            if isinstance(a, Rat) and isinstance(b, Rat):
-                return self.A.equal(a, b)
-            return False
-        if ev.rets and all(same(ev.rets[0], r) for r in ev.rets[1:]) and not isinstance(ev.rets[0], Unknown):
-            return ev.rets[0]
-        return UNK
-
-    def _dict_of(self, ev, e):
-        """records per entry of a field dictionary expression"""
-        if isinstance(e, ast.Attribute) and isinstance(e.value, ast.Name) and e.value.id == ev.s and e.attr in ("nodalFields", "cellFields"):
-            return {"*": Rec(Arr(self.A.atom("N_out" if e.attr == "nodalFields" else "N_el"))), "kind": e.attr}
-        v = ev.ev(e)
-        return v if isinstance(v, dict) else None
-
-    def _block(self, m, ev, body, mult):
-        A = self.A
-        for st in body:
-            if isinstance(st, ast.Assign) and len(st.targets) == 1:
-                t = st.targets[0]
-                if isinstance(t, ast.Name):
-                    # dictionaries
-                    v = st.value
-                    if isinstance(v, ast.Call) and (dotted(v.func) or "") == "dict" and v.args:
-                        dct = self._dict_of(ev, v.args[0])
-                        ev.env[t.id] = dict(dct) if dct else UNK
-                    elif isinstance(v, ast.Dict) and not v.keys:
-                        ev.env[t.id] = {"*": None, "kind": "new"}
-                    elif isinstance(v, ast.Subscript) and self._dict_of(ev, v.value) is not None:
-                        ev.env[t.id] = self._dict_of(ev, v.value).get("*", UNK)
-                    elif isinstance(v, ast.UnaryOp) and isinstance(v.op, ast.Not):
-                        ev.env[t.id] = UNK
-                    else:
-                        ev.env[t.id] = ev.ev(v)
-                elif isinstance(t, ast.Subscript) and isinstance(t.value, ast.Name) and isinstance(ev.env.get(t.value.id), dict):
-                    dct = ev.env[t.value.id]
-                    val = ev.ev(st.value)
-                    if isinstance(t.slice, ast.Constant):
-                        dct.setdefault("named", {})[t.slice.value] = val
-                    else:
-                        dct["*"] = val
-                elif isinstance(t, (ast.Tuple, ast.List)):
-                    val = ev.ev(st.value)
-                    for k, el in enumerate(t.elts):
-                        if isinstance(el, ast.Name):
-                            ev.env[el.id] = val[k] if isinstance(val, list) and len(val) == len(t.elts) else UNK
-                continue
-            if isinstance(st, ast.Expr) and isinstance(st.value, ast.Call):
-                c = st.value
-                h = _header_of(c)
-                if h:
-                    key, hargs = h
-                    vals = [ev.ev(a) for a in hargs]
-                    declared = vals[0] if vals and isinstance(vals[0], Rat) else None
-                    sec = dict(key=key, declared=declared, written=A.const(0), scope=m, node=st, ints=A.const(0) if key == "CELLS" else None,
-                               size=vals[1] if key == "CELLS" and len(vals) > 1 and isinstance(vals[1], Rat) else None, src=src(hargs[0]) if hargs else "")
-                    self.sections.append(sec)
-                    continue
-                if isinstance(c.func, ast.Attribute) and c.func.attr == "write" and c.args:
-                    a = c.args[0]
-                    if isinstance(a, ast.Call) and (dotted(a.func) or "").endswith("write_matrix_as_table"):
-                        arr = ev.ev(a.args[0])
-                        if isinstance(arr, Arr):
-                            self.add_rows(A.norm(arr.rows * mult), arr.cols)
-                        else:
-                            self.add_rows(None)
-                        continue
-                    # a literal line: counts as a record iff it is not just a newline / a field header
-                    txt = None
-                    if isinstance(a, ast.Constant) and isinstance(a.value, str):
-                        txt = a.value
-                    elif isinstance(a, ast.Call) and isinstance(a.func, ast.Attribute) and a.func.attr == "format" and isinstance(a.func.value, ast.Constant):
-                        txt = a.func.value.value
-                    elif isinstance(a, ast.Name):
-                        txt = "<line>"
-                    elif isinstance(a, ast.BinOp):
-                        txt = "<line>"
-                    if txt is None:
-                        self.add_rows(None)
-                    elif txt.strip() == "" or txt.split()[0] in ("SCALARS", "VECTORS", "TENSORS", "LOOKUP_TABLE", "#", "Written", "DATASET") or txt.startswith("# vtk"):
-                        pass
-                    elif isinstance(a, ast.BinOp) and "vtkFormat" in src(a):
-                        pass
-                    else:
-                        nints = A.const(len(txt.split())) if txt != "<line>" else None
-                        self.add_rows(mult, nints)
-                    continue
-                # self._write_xxx(vtkFile) / self._write_out_all_fields_in_dict(D, vtkFile)
-                if isinstance(c.func, ast.Attribute) and isinstance(c.func.value, ast.Name) and c.func.value.id == ev.s and c.func.attr in self.meths:
-                    callee = self.meths[c.func.attr]
-                    if c.func.attr == "_write_out_all_fields_in_dict":
-                        dct = ev.env.get(c.args[0].id) if isinstance(c.args[0], ast.Name) else self._dict_of(ev, c.args[0])
-                        sec = self.cur()
-                        if isinstance(dct, dict):
-                            entries = [("every admitted field", dct.get("*"))] + [(k, v) for k, v in dct.get("named", {}).items()]
-                            for nm, rec in entries:
-                                if rec is None:
-                                    continue
-                                rows = rec.data.rows if isinstance(rec, Rec) and isinstance(rec.data, Arr) else None
-                                self.fields_written.append((sec["key"] if sec else "?", nm, rows, m, st))
-                        else:
-                            self.fields_written.append((sec["key"] if sec else "?", "?", None, m, st))
-                    else:
-                        self.run_method(callee)
-                    continue
-                continue
-            if isinstance(st, ast.If):
-                # both branches are explored; counts declared inside a branch are checked for that branch
-                self._block(m, ev, st.body, mult)
-                self._block(m, ev, st.orelse, mult)
-                continue
-            if isinstance(st, ast.For):
-                it = st.iter
-                n = None
-                dct = None
-                if isinstance(it, ast.Name) and isinstance(ev.env.get(it.id), dict):
-                    dct = ev.env[it.id]
-                elif self._dict_of(ev, it) is not None:
-                    dct = self._dict_of(ev, it)
-                if dct is not None:
-                    # loop over the fields of a dictionary: body executed once per field, abstractly once
-                    self._block(m, ev, st.body, mult)
-                    continue
-                v = ev.ev(it)
-                if isinstance(v, Arr):
-                    n = v.rows
-                if n is None:
-                    self.unknown.append((m, st, f"loop over `{src(it)}` with unknown trip count"))
-                    continue
-                # accumulator pattern: X = Record(vstack((X.data, default)), ...) adds one record per iteration
-                before = {k: v2 for k, v2 in ev.env.items()}
-                self._block(m, ev, st.body, A.norm(mult * n))
-                for k, v2 in list(ev.env.items()):
-                    b = before.get(k)
-                    if isinstance(v2, Rec) and isinstance(b, Rec) and isinstance(v2.data, Arr) and isinstance(b.data, Arr):
-                        inc = A.norm(v2.data.rows - b.data.rows)
-                        ev.env[k] = Rec(Arr(A.norm(b.data.rows + inc * n), v2.data.cols))
-                    elif isinstance(v2, Arr) and isinstance(b, Arr):
-                        inc = A.norm(v2.rows - b.rows)
-                        ev.env[k] = Arr(A.norm(b.rows + inc * n), v2.cols)
-                continue
-            if isinstance(st, (ast.Try,)):
-                self._block(m, ev, st.body, mult)
-                continue
-            if isinstance(st, ast.Return):
-                ev.rets.append(ev.ev(st.value) if st.value is not None else UNK)
-                return True
+            d = I.eval(fn.node.args.defaults[-1], fn.env)
+            if isinstance(d, EnumVal) and d.cls is dtypes and d not in pick:
+                pick.insert(0, d)
+        except (Undecidable, ProgramError):
+            pass
+    return pick
 
 
-def d2(ctx, cls):
-    rule = "D2/T9-symbolic-lengths"
-    A = Algebra()
-    meths = _methods(cls)
-    run = SectionRun(ctx, cls, A)
-    run.run_method(meths["write"])
-    keys = [s["key"] for s in run.sections]
-    for want in ("POINTS", "CELLS", "CELL_TYPES", "POINT_DATA", "CELL_DATA"):
+def build_writer(I, sit, agg):
+    g = I.globals
+    W = g.lookup("VTKWriter")
+    kinds, dtypes = g.lookup("VTKFieldType"), g.lookup("VTKDataType")
+    for name, c in (("VTKWriter", W), ("VTKFieldType", kinds), ("VTKDataType", dtypes)):
+        if not isinstance(c, UserClass):
+            raise Undecidable(f"public class {name} is not a class the analysis can read")
+    mesh = make_mesh(I, sit.degree)
+    w = I.call(W, [mesh, "output"], {}, None)
+    if not isinstance(w, Instance):
+        raise Undecidable("VTKWriter(...) did not produce an object")
+    info = {"mesh": mesh, "sizes": {}}
+    if sit.sph == "+":
+        syms = repeat_calls(I, w, "add_sphere", lambda: [Arr((PC(2),)), Scalar("float")], "N_spheres")
+        for name, s in syms.items():
+            if I.lo[name] == 0:
+                I.set_lo(name, 1)           # the situation: at least one sphere
+        info["sizes"].update(syms)
+    if sit.ce != "none":
+        syms = repeat_calls(I, w, "add_contact_edges", lambda: [Arr((I.fresh("edgesAdded", 0, True), PC(2)))], "N_contactEdges")
+        for name, s in syms.items():
+            if sit.ce == "0":
+                if I.lo[name] == 0:
+                    I.set_eq(name, ZERO)
+            else:
+                I.set_lo(name, 1)
+        info["sizes"].update(syms)
+    info["nodal"] = admit_fields(I, w, "add_nodal_field", kinds, dtypes, agg, sit) if sit.nodal else []
+    info["cell"] = admit_fields(I, w, "add_cell_field", kinds, dtypes, agg, sit) if sit.cell else []
+    return w, info
+
+
+def stored_layouts(I, w):
+    """{(field type name, data type name): set of (rows per entity, columns)} of the arrays the writer stores for admitted fields (constants only)"""
+    out = {}
+
+    def arrays(v, acc):
+        if isinstance(v, Arr):
+            acc.append(v)
+        elif isinstance(v, tuple):
+            for x in v:
+                arrays(x, acc)
+        elif isinstance(v, NTInst):
+            for x in v.vals.values():
+                arrays(x, acc)
+        elif isinstance(v, Instance):
+            for x in v.attrs.values():
+                arrays(x, acc)
+        return acc
+    for d in w.attrs.values():
+        if not isinstance(d, DictV):
+            continue
+        for k, v in d.entries:
+            if not isinstance(k, Key):
+                continue
+            label, ft, dt, api = I.key_label[k.kid]
+            arrs = arrays(v, [])
+            if len(arrs) == 1 and len(arrs[0].shape) == 2 and pconst(I.norm(arrs[0].shape[1])) is not None:
+                out.setdefault((ft.name, dt.name), set()).add(pconst(I.norm(arrs[0].shape[1])))
+    return out
+
+
+def reachable(w):
+    """ids of every heap object / array that belongs to the writer"""
+    seen = {}
+
+    def rec(v):
+        if isinstance(v, (Instance, ListV, DictV, Arr)):
+            if id(v) in seen:
+                return
+            seen[id(v)] = v
+        if isinstance(v, Instance):
+            for x in v.attrs.values():
+                rec(x)
+        elif isinstance(v, ListV):
+            for x in (v.items if v.items is not None else [e for (e, _c, _k) in v.segs]):
+                rec(x)
+        elif isinstance(v, DictV):
+            for k, x in v.entries:
+                rec(x)
+        elif isinstance(v, Arr):
+            if v.base is not None:
+                rec(v.base)
+        elif isinstance(v, tuple):
+            for x in v:
+                rec(x)
+        elif isinstance(v, NTInst):
+            for x in v.vals.values():
+                rec(x)
+    rec(w)
+    return seen
+
+
+# ================================================================================================== reading the abstract file
+
+def _count_of(I, tok):
+    """declared count of a header argument token"""
+    if tok[0] == "t" and isinstance(tok[1], Int):
+        return I.norm(tok[1].p)
+    if tok[0] == "w" and tok[1].isdigit():
+        return PC(int(tok[1]))
+    return None
+
+
+def _eq(I, a, b):
+    """(verdict, shown) for the equality of two count polynomials: True / False (differ as polynomials of independent sizes) / None"""
+    r = I.same(a, b)
+    if r is True:
+        return True
+    if r is False or I.independent(a - b):
+        return False
+    return None
+
+
+def check_header(I, header, agg, sit, prov):
+    c = "file-header"
+    if any(t[0] == "join" for t in header):
+        agg.add(R9, c, None, "the header lines are written by a repetition", prov, sit)
+        return
+    lines, cur = [], []
+    for t in header:
+        if t[0] == "nl":
+            lines.append(cur)
+            cur = []
+            lines.extend([[]] * (t[1] - 1))
+        else:
+            cur.append(t)
+    if cur:
+        lines.append(cur)
+    def words(line):
+        return [t[1] if t[0] == "w" else None for t in line]
+    bad = None
+    if len(lines) < 4:
+        bad = f"the file starts with {len(lines)} header line(s); 4 are required (version, title, ASCII, DATASET UNSTRUCTURED_GRID)"
+    else:
+        l0, l2, l3 = words(lines[0]), words(lines[2]), words(lines[3])
+        if None in l0 + l2 + l3:
+            agg.add(R9, c, None, "header words are computed values", prov, sit)
+            return
+        if l0[:4] != ["#", "vtk", "DataFile", "Version"] or len(l0) != 5:
+            bad = f"line 1 is `{' '.join(l0)}`, not `# vtk DataFile Version x.y`"
+        elif l2 != ["ASCII"]:
+            bad = f"line 3 is `{' '.join(l2)}`; the data is written as text, so it must be `ASCII`"
+        elif l3 != ["DATASET", "UNSTRUCTURED_GRID"]:
+            bad = f"line 4 is `{' '.join(l3)}`, not `DATASET UNSTRUCTURED_GRID`"
+        elif len(lines) > 4 and any(lines[4:]):
+            agg.add(R9, c, None, "tokens between the DATASET line and the first section are not modelled", prov, sit)
+            return
+    p = prov
+    for t in header:
+        if t[0] in ("w", "t") and t[2] is not None:
+            p = t[2]
+            break
+    agg.add(R9, c, bad is None, bad or "version / title / ASCII / DATASET UNSTRUCTURED_GRID lines", p, sit)
+
+
+def check_file(I, toks, info, agg, sit, wprov):
+    sit_s = str(sit)
+    try:
+        header, sections = T.parse_file(I, toks)
+    except T.Malformed as e:
+        agg.add(R9, "file-grammar", False, f"the written file does not follow the VTK grammar: {e.msg}", e.prov or wprov, sit_s)
+        return
+    agg.add(R9, "file-grammar", True, "the token stream parses as header + sections + attribute arrays", wprov, sit_s)
+    check_header(I, header, agg, sit_s, wprov)
+    keys = [s.key for s in sections]
+    for want in ("POINTS", "CELLS", "CELL_TYPES"):
         if want not in keys:
-            ctx.undecided(rule, meths["write"], None, construct=f"header:{want}", detail="section header not found under write()")
-    if len(keys) != len(set(keys)):
-        dup = [k for k in keys if keys.count(k) > 1]
-        ctx.refuted(rule, meths["write"], None, construct=f"duplicate-header:{dup[0]}", detail=f"header {dup[0]} is emitted more than once per file")
-    for (m, st, msg) in run.unknown:
-        ctx.undecided(rule, m, st, construct=f"{m.name}:loop", detail=msg)
-    by = {s["key"]: s for s in run.sections}
-    # declared == written for geometry sections
-    for k in ("POINTS", "CELLS", "CELL_TYPES"):
+            agg.add(R9, f"header:{want}", False, f"write() emits no {want} section", wprov, sit_s)
+        else:
+            agg.add(R9, f"header:{want}", True, "section present", [s for s in sections if s.key == want][0].prov, sit_s)
+    for k in set(keys):
+        if keys.count(k) > 1:
+            agg.add(R9, f"duplicate-header:{k}", False, f"header {k} is emitted {keys.count(k)} times per file", [s for s in sections if s.key == k][1].prov, sit_s)
+    geo = [i for i, k in enumerate(keys) if k in ("POINTS", "CELLS", "CELL_TYPES")]
+    dat = [i for i, k in enumerate(keys) if k in ("POINT_DATA", "CELL_DATA")]
+    geo_ok = not geo or not dat or max(geo) < min(dat)
+    agg.add(R9, "section-order", bool(geo_ok), "the data sections follow POINTS / CELLS / CELL_TYPES" if geo_ok else
+            f"sections are written in the order {keys}: a legacy reader stops reading geometry at the first data section",
+            sections[dat[0]].prov if dat else (sections[0].prov if sections else wprov), sit_s)
+    by = {}
+    for s in sections:
+        by.setdefault(s.key, s)
+    decl = {}
+    for k, s in by.items():
+        decl[k] = _count_of(I, s.args[0])
+        if decl[k] is None:
+            agg.add(R9, f"{k}:declared==written", None, f"the count after {k} is not an integer the analysis tracks", s.prov, sit_s)
+
+    def counts(s):
+        return I.norm(T.ntokens(I, s.body)), T.nlines(I, s.body)
+
+    # ---- geometry sections
+    for k, per_line in (("POINTS", 3), ("CELLS", None), ("CELL_TYPES", 1)):
         s = by.get(k)
-        if not s:
+        if s is None or decl[k] is None:
             continue
-        if s["declared"] is None or s["written"] is None:
-            ctx.undecided(rule, s["scope"], s["node"], construct=f"{k}:declared==written", detail=f"declared `{s['src']}` or written rows not computable")
+        try:
+            ntok, (nl, dirty) = counts(s)
+            nl = I.norm(nl + (ONE if dirty else ZERO))
+        except Undecidable as e:
+            agg.add(R9, f"{k}:declared==written", None, e.msg, s.prov, sit_s)
             continue
-        ok = A.equal(s["declared"], s["written"])
-        ctx.decide(rule, ok, s["scope"], s["node"], construct=f"{k}:declared==written",
-                   detail=f"{k} declares {s['declared']!r}, writes {s['written']!r} records",
-                   bad_detail=f"{k} declares {s['declared']!r} records but {s['written']!r} are written before the next header")
-    s = by.get("CELLS")
-    if s and s.get("size") is not None and s.get("ints") is not None:
-        ints = A.subst(s["ints"], "NPE", A.atom("NPE"))
-        ok = A.equal(s["size"], s["ints"])
-        ctx.decide(rule, ok, s["scope"], s["node"], construct="CELLS:size==integers-written",
-                   detail=f"size {s['size']!r} == integers {s['ints']!r}",
-                   bad_detail=f"CELLS declares size {s['size']!r} but {s['ints']!r} integers are written")
-    elif s:
-        ctx.undecided(rule, s["scope"], s["node"], construct="CELLS:size==integers-written", detail="size or integer count not computable")
-    # sibling headers agree
+        n = decl[k]
+        if k == "CELLS":
+            ok = _eq(I, nl, n)
+            agg.add(R9, "CELLS:declared==written", ok, f"CELLS declares {I.show(n)} cells, {I.show(nl)} connectivity lines are written"
+                    if ok is not True else f"CELLS declares {I.show(n)}, writes {I.show(nl)} records", s.prov, sit_s)
+            size = _count_of(I, s.args[1])
+            if size is None:
+                agg.add(R9, "CELLS:size==integers-written", None, "the size after CELLS is not an integer the analysis tracks", s.prov, sit_s)
+            else:
+                ok = _eq(I, ntok, size)
+                agg.add(R9, "CELLS:size==integers-written", ok, f"CELLS declares size {I.show(size)} but {I.show(ntok)} integers are written"
+                        if ok is not True else f"size {I.show(size)} == integers written", s.prov, sit_s)
+        else:
+            ok1, ok2 = _eq(I, ntok, n * PC(per_line)), _eq(I, nl, n)
+            ok = False if (ok1 is False or ok2 is False) else None if (ok1 is None or ok2 is None) else True
+            agg.add(R9, f"{k}:declared==written", ok,
+                    f"{k} declares {I.show(n)} records but {I.show(nl)} lines / {I.show(ntok)} numbers ({per_line} per record) are written before the next header"
+                    if ok is not True else f"{k} declares {I.show(n)}, writes {I.show(nl)} records", s.prov, sit_s)
+    # ---- connectivity records: `k id_1 .. id_k` per line, and the cell type of the line (decided only when the leading numbers are known)
+    try:
+        check_cell_records(I, by, agg, sit_s)
+    except Undecidable:
+        pass
+    # ---- sibling headers
     for a_, b_ in (("POINTS", "POINT_DATA"), ("CELLS", "CELL_TYPES"), ("CELLS", "CELL_DATA")):
-        sa, sb = by.get(a_), by.get(b_)
-        if not sa or not sb:
+        if a_ in by and b_ in by and decl.get(a_) is not None and decl.get(b_) is not None:
+            ok = _eq(I, decl[a_], decl[b_])
+            agg.add(R9, f"{b_}=={a_}", ok, f"{b_} declares {I.show(decl[b_])} but {a_} declares {I.show(decl[a_])}: the file is not a valid dataset"
+                    if ok is not True else f"both declare {I.show(decl[a_])}", by[b_].prov, sit_s)
+    # ---- data sections
+    for k, api, admitted in (("POINT_DATA", "add_nodal_field", info["nodal"]), ("CELL_DATA", "add_cell_field", info["cell"])):
+        s = by.get(k)
+        padded = (sit.sph == "+") if k == "POINT_DATA" else (sit.ce == "+")
+        if s is None:
+            if admitted:
+                agg.add(R9, f"{k}:all-fields-written", False, f"fields were admitted by {api} but write() emits no {k} section", wprov, sit_s)
             continue
-        if sa["declared"] is None or sb["declared"] is None:
-            ctx.undecided(rule, sb["scope"], sb["node"], construct=f"{b_}=={a_}", detail=f"`{sb['src']}` / `{sa['src']}` not computable")
-            continue
-        ok = A.equal(sa["declared"], sb["declared"])
-        ctx.decide(rule, ok, sb["scope"], sb["node"], construct=f"{b_}=={a_}",
-                   detail=f"both declare {sa['declared']!r}",
-                   bad_detail=f"{b_} declares {sb['declared']!r} but {a_} declares {sa['declared']!r}: the file is not a valid dataset "
-                              f"(N_out = written points, N_nodes = mesh nodes, N_el = elements, N_sph = spheres, N_ce = contact edges)")
-    # every written field has the record count of its section
-    n_f = 0
-    for (key, nm, rows, m, st) in run.fields_written:
-        sec = by.get(key)
-        if sec is None or sec["declared"] is None or rows is None:
-            ctx.undecided(rule, m, st, construct=f"{key}:field-records:{nm}", detail="record count of the written fields not computable")
-            continue
-        n_f += 1
-        ok = A.equal(rows, sec["declared"])
-        ctx.decide(rule, ok, m, st, construct=f"{key}:field-records:{nm}",
-                   detail=f"{nm}: {rows!r} records == declared {sec['declared']!r}",
-                   bad_detail=f"under {key} ({sec['declared']!r} declared) the arrays of {nm} carry {rows!r} records")
-    if n_f < 2:
-        ctx.undecided(rule, meths["write"], None, construct="field-records", detail=f"{n_f} field groups analysed")
-    # admission guards: add_nodal_field admits N_out records, add_cell_field N_el
-    for mname, want_sym, dname in (("add_nodal_field", "N_out", "nodalFields"), ("add_cell_field", "N_el", "cellFields")):
-        m = meths.get(mname)
-        if m is None:
-            raise Incomplete(f"{mname} not found")
-        ev = LenEval(m.params()[0], A)
-        ok = None
-        shown = ""
-        for st in ast.walk(m.node):
-            if isinstance(st, ast.Assign) and len(st.targets) == 1 and isinstance(st.targets[0], ast.Name):
-                ev.env.setdefault(st.targets[0].id, ev.ev(st.value))
-        cfg = cfg_of(m)
-        for n in cfg.stmt_nodes():
-            st = n.ast
-            if not (n.kind == "stmt" and isinstance(st, ast.Assign) and any(isinstance(t, ast.Subscript) and isinstance(t.value, ast.Attribute) and t.value.attr == dname
-                                                       for t in st.targets)):
+        n = decl.get(k)
+        seen = {}
+        for arr in s.arrays:
+            name = arr.name
+            kid = name[1].kid if name[0] == "t" and isinstance(name[1], Key) else None
+            if kid is not None:
+                label, ft, dt, _api = I.key_label[kid]
+                seen.setdefault(kid, []).append(arr)
+                group = label
+            else:
+                group = name[1] if name[0] == "w" else "<computed name>"
+                label, ft, dt = group, None, None
+            comps = COMPS[arr.kind] if arr.kind in COMPS else None
+            if arr.kind == "SCALARS" and arr.ncomp is not None:
+                comps = arr.ncomp
+            # header of the array
+            if ft is not None:
+                ok = arr.kind == ft.name
+                agg.add(R9, f"{k}:field-header:{group}", ok, f"a {ft.name} field is written under the keyword {arr.kind}" if not ok
+                        else f"{ft.name} fields are written under {arr.kind}", arr.prov, sit_s)
+                dtok = arr.dtype
+                if dtok[0] == "w" and isinstance(dt.value, str):
+                    ok = True if dtok[1] == dt.value else False if dtok[1].lower() not in T.VTK_TYPES else None
+                    agg.add(R9, f"{k}:field-data-type:{group}", ok, f"a field declared {dt.name} is written with the data type word `{dtok[1]}` (its value is `{dt.value}`)"
+                            + ("; that is not a VTK data type" if ok is False else "") if ok is not True else "data type word is the value of the VTKDataType member",
+                            arr.prov, sit_s)
+            elif arr.dtype[0] == "w":
+                ok = arr.dtype[1].lower() in T.VTK_TYPES
+                agg.add(R9, f"{k}:field-data-type:{group}", ok, f"`{arr.dtype[1]}` is not a VTK data type" if not ok else "a VTK data type word", arr.prov, sit_s)
+            if arr.kind == "SCALARS":
+                ok = arr.lookup is not None
+                agg.add(R9, f"{k}:scalars-lookup-table:{group}", ok, "SCALARS without the LOOKUP_TABLE line the legacy reader requires" if not ok
+                        else "SCALARS name type / LOOKUP_TABLE name", arr.prov, sit_s)
+            if n is None or comps is None:
                 continue
-            # the store must be guarded, on every path, by <data>.shape[0] == <count> (as a taken == branch or a skipped != branch)
-            found = None
-            for (tst, pol, _c) in facts_at(cfg, n):
-                if not (isinstance(tst, ast.Compare) and len(tst.ops) == 1):
+            try:
+                ntok = I.norm(T.ntokens(I, arr.data))
+            except Undecidable as e:
+                agg.add(R9, f"{k}:field-records:{group}", None, e.msg, arr.prov, sit_s)
+                continue
+            ok = _eq(I, ntok, n * PC(comps))
+            loose = sorted(a for a in I.norm(ntok - n * PC(comps)).atoms() if a.startswith("rows#"))
+            if ok is None and loose:
+                ok = False      # the number of records of the admitted array is a free input: any array is admitted
+            what = f"{label}" + (f" of data type {dt.name}" if dt is not None else "") + \
+                (" (the number of records of the user's array is not tied to the section count when it is admitted)" if loose else "")
+            msg = (f"under {k} ({I.show(n)} declared) the {arr.kind} array of {what} holds {I.show(ntok)} numbers; {comps} per record need {I.show(n * PC(comps))}"
+                   if ok is not True else f"{arr.kind}: {I.show(ntok)} numbers == {comps} x declared {I.show(n)}")
+            agg.add(R9, f"{k}:field-records:{group}", ok, msg, arr.prov, sit_s)
+            if kid is not None:
+                if padded:
+                    agg.add(R6, f"{k}:{ft.name}[{dt.name}]:one-record-per-extra-entity", ok,
+                            (f"with spheres / contact edges the {arr.kind} array of a {dt.name} field holds {I.show(ntok)} numbers instead of {I.show(n * PC(comps))}: "
+                             f"the padding appended per extra point / cell is not one {ft.name} record") if ok is not True else
+                            f"padded array holds {comps} numbers per point / cell", arr.prov, sit_s)
+                else:
+                    agg.add(R9, f"{api}:admits-section-count", ok,
+                            (f"{api} admits a {what} array that is written with {I.show(ntok)} numbers where its section declares {I.show(n)} records "
+                             f"({I.show(n * PC(comps))} numbers)") if ok is not True else f"admitted arrays carry one record per entity of the section", arr.prov, sit_s)
+        # every admitted class exactly once
+        missing = [kid for kid in admitted if kid not in seen]
+        twice = [kid for kid, arrs in seen.items() if len(arrs) > 1 or I.same(arrs[0].mult, I.key_mult[kid]) is not True]
+        ok = False if missing else None if twice else True
+        msg = "every admitted field is written exactly once"
+        if missing:
+            lab = I.key_label[missing[0]]
+            msg = f"{len(missing)} admitted field classes (e.g. {lab[0]} / {lab[2].name}) are not written under {k}"
+        elif twice:
+            lab = I.key_label[twice[0]]
+            msg = f"fields of class {lab[0]} / {lab[2].name} are written more than once under {k}"
+        agg.add(R9, f"{k}:all-fields-written", ok, msg, s.prov, sit_s)
+        if not s.arrays and not admitted and not padded:
+            pass
+
+
+VTK_CELL_POINTS = {1: 1, 3: 2, 5: 3, 8: 4, 9: 4, 10: 4, 12: 8, 13: 6, 14: 5, 21: 3, 22: 6, 23: 8, 24: 10, 25: 20}
+
+
+def _tok_value(I, tok):
+    if tok[0] == "w" and tok[1].isdigit():
+        return PC(int(tok[1]))
+    if tok[0] == "t" and isinstance(tok[1], Int):
+        return I.norm(tok[1].p)
+    return None
+
+
+def check_cell_records(I, by, agg, sit_s):
+    """Best effort (no obligation when the leading number of a connectivity line is not a tracked integer): every line of CELLS is
+    `k` followed by k indices; the CELL_TYPES entry of the line is a VTK cell type with k points."""
+    cells = by.get("CELLS")
+    if cells is None:
+        return
+    lines = T.line_templates(I, cells.body)
+    if not lines:
+        return
+    recs = []
+    for (first, n, mult) in lines:
+        k = _tok_value(I, first)
+        if k is None:
+            return
+        recs.append((k, I.norm(n), I.norm(mult), first))
+    bad = None
+    for (k, n, mult, first) in recs:
+        ok = _eq(I, k + ONE, n)
+        if ok is None:
+            return
+        if ok is False and bad is None:
+            bad = (f"a connectivity line starts with {I.show(k)} (the number of point indices that follow) but holds {I.show(n - ONE)} indices", first[2])
+    agg.add(R9, "CELLS:records-well-formed", bad is None, bad[0] if bad else "every connectivity line is `k` followed by k point indices",
+            bad[1] if bad else cells.prov, sit_s)
+    types = by.get("CELL_TYPES")
+    if types is None or bad is not None:
+        return
+    tl = T.line_templates(I, types.body)
+    if not tl:
+        return
+    a = [(k, m, f) for (k, n, m, f) in recs if I.sign(m) != "zero"]
+    b = [(_tok_value(I, f), I.norm(m), f) for (f, n, m) in tl if I.sign(m) != "zero"]
+    if len(a) != len(b) or any(t is None or pconst(t) is None for (t, _m, _f) in b) or any(I.same(x[1], y[1]) is not True for x, y in zip(a, b)):
+        return
+    bad = None
+    for (k, m, f), (t, _m, tf) in zip(a, b):
+        want = VTK_CELL_POINTS.get(pconst(t))
+        if want is None:
+            return
+        if pconst(k) is None:
+            return
+        if pconst(k) != want and bad is None:
+            bad = (f"cells written with {pconst(k)} point indices are given the VTK cell type {pconst(t)}, which has {want} points", tf[2])
+    agg.add(R9, "CELL_TYPES:type-matches-record", bad is None, bad[0] if bad else "the cell type of every record has as many points as the record lists",
+            bad[1] if bad else types.prov, sit_s)
+
+
+# ================================================================================================== one situation
+
+def run_situation(ctx, tree, sit, agg, stats):
+    sit_s = str(sit)
+    I = Interp(tree, ctx.repo.scope_of, V)
+    try:
+        w, info = build_writer(I, sit, agg)
+    except (Undecidable, ProgramError) as e:
+        agg.add(R9, "writer-state", None, ("driving the public API to build the writer: " if isinstance(e, Undecidable) else
+                                           "building the writer with the inputs the analysis supplies raises: ") + e.msg, _prov_of_exc(e), sit_s)
+        return
+    if info["nodal"] or info["cell"]:
+        for key, cols in stored_layouts(I, w).items():
+            stats.setdefault("layout", {}).setdefault(key, set()).update(cols)
+    pre = reachable(w)
+    pre_attrs = {id(o): dict(o.attrs) for o in pre.values() if isinstance(o, Instance)}
+    outs = []
+    called_before = len(I.called)
+    n_log0 = len(I.log)
+    wprov = None
+    for k in range(2):
+        nf = len(I.files)
+        try:
+            I.call(_api(I, w, "write"), [], {}, None)
+        except Undecidable as e:
+            agg.add(R9 if k == 0 else R1, "write()-interpretable" if k == 0 else "second-write-identical", None,
+                    f"interpreting write(){' a second time' if k else ''}: {e.msg}", _prov_of_exc(e), sit_s)
+            break
+        except ProgramError as e:
+            agg.add(R9 if k == 0 else R1, "write()-runs" if k == 0 else "second-write-identical", False,
+                    f"write(){' called a second time' if k else ''} raises: {e.msg}", _prov_of_exc(e), sit_s)
+            break
+        files = [f for f in I.files[nf:] if getattr(f, "kind", "file") == "file"]
+        if len(files) != 1:
+            agg.add(R9, "write()-interpretable", None, f"write() opens {len(files)} files", None, sit_s)
+            break
+        outs.append(files[0])
+    write_funcs = [f for f in I.called[called_before:] if f.scope is not None]
+    for f in write_funcs:
+        stats["funcs"][f.scope.qualname] = f
+        ctx.touch(f.scope)
+    for f in I.called[:called_before]:
+        if f.scope is not None:
+            ctx.touch(f.scope)
+    for f in write_funcs:
+        if f.name == "write":
+            wprov = (f, None)
+    if not outs:
+        return
+    agg.add(R9, "write()-interpretable", True, "write() is interpreted to the end", wprov, sit_s)
+    # ---- the first file
+    toks = None
+    try:
+        atoms = T.out_atoms(outs[0].out)
+        toks = T.tokenize(I, atoms)
+    except T.Glued as e:
+        agg.add(R9, "file-grammar", False if e.definite else None, f"{e.msg}: two tokens of the file run together", e.prov or wprov, sit_s)
+    except Undecidable as e:
+        agg.add(R9, "file-grammar", None, e.msg, wprov, sit_s)
+    if toks is not None:
+        try:
+            check_file(I, toks, info, agg, sit, wprov)
+        except Undecidable as e:
+            agg.add(R9, "file-grammar", None, f"reading the abstract file: {e.msg}", wprov, sit_s)
+    # ---- purity
+    differs = None
+    if len(outs) == 2:
+        a, b = T.freeze_out(outs[0].out, I.norm), T.freeze_out(outs[1].out, I.norm)
+        differs = a != b
+        msg = "the second write() emits the same abstract file as the first"
+        if differs:
+            msg = "the second write() of the same writer emits a different file: " + _first_difference(a, b)
+        agg.add(R1, "second-write-identical", not differs, msg, wprov, sit_s)
+    flagged = {}
+    for (kind, target, detail, node, fn) in I.log[n_log0:]:
+        tgt = target.root() if isinstance(target, Arr) else target
+        if id(tgt) not in pre:
+            continue
+        if kind == "attr":
+            old = pre_attrs.get(id(tgt), {})
+            if detail not in old:
+                continue                    # a new attribute: the second-write comparison sees any effect it has
+            new = tgt.attrs.get(detail)
+            if new is old[detail] or (isinstance(new, (str, bool, type(None))) and new == old[detail]) or \
+                    (isinstance(new, Int) and isinstance(old[detail], Int) and I.same(new.p, old[detail].p) is True):
+                continue
+            verdict = False if differs else None
+            why = f"rebinds the attribute `{detail}` of " + ("the writer" if tgt is w else f"a {tgt.cls.name} object that belongs to the writer")
+        elif kind == "arr":
+            # an arithmetic update is not idempotent: the next write sees other numbers.  A plain store may write the same values again.
+            verdict = False if detail == "in-place arithmetic" else None
+            why = f"changes entries of an array that belongs to the writer / its mesh ({detail})" + \
+                  ("" if verdict is False else "; whether the values differ is not tracked")
+        else:
+            verdict = False if differs else None
+            why = f"updates a {'dictionary' if kind == 'dict' else 'list'} that belongs to the writer in place" + \
+                  ("" if differs else " (the effect on the written values is not tracked)")
+        flagged.setdefault(fn, []).append((verdict, why, node))
+    for f in write_funcs:
+        if f in flagged:
+            for (verdict, why, node) in flagged[f]:
+                agg.add(R1, f"{f.name}:no-state-write", verdict,
+                        f"{f.name}, which runs under write(), {why} (`{_src(node)}`): writing changes the writer"
+                        + (", so a second write() differs" if verdict is False and differs else ""), (f, node), sit_s)
+        else:
+            agg.add(R1, f"{f.name}:no-state-write", True, f"{f.name} mutates no object that belonged to the writer before write()", (f, None), sit_s)
+    for fn, evs in flagged.items():
+        if fn not in write_funcs:
+            for (verdict, why, node) in evs:
+                agg.add(R1, "write():no-state-write", verdict, f"code running under write() {why} (`{_src(node)}`)", wprov, sit_s)
+
+
+def _src(node):
+    try:
+        return ast.unparse(node)[:80]
+    except Exception:
+        return "?"
+
+
+def _prov_of_exc(e):
+    fn = getattr(e, "func", None) or getattr(e, "scope", None)
+    node = getattr(e, "node", None)
+    return (fn, node) if isinstance(fn, Func) else None
+
+
+def _first_difference(a, b, context=""):
+    for x, y in zip(a, b):
+        if x == y:
+            if x[0] == "lit" and x[1].split():
+                context = x[1].split("\n")[-2 if x[1].endswith("\n") and "\n" in x[1][:-1] else -1].strip() or context
+                for w in x[1].split():
+                    if w.isupper() and len(w) > 3:
+                        context = w
+            continue
+        where = f" (after `{context}`)" if context else ""
+        if x[0] == "join" and y[0] == "join":
+            if x[3] != y[3]:
+                return f"a piece of text written {x[3]!r} times by the first write() is written {y[3]!r} times by the second{where}"
+            if x[2] != y[2]:
+                return _first_difference(x[2], y[2], context)
+            return _first_difference(x[1], y[1], context)
+        return f"`{_show_atom(x)}` became `{_show_atom(y)}`{where}"
+    return f"{len(a)} vs {len(b)} pieces of text"
+
+
+def _show_atom(a):
+    if a[0] == "lit":
+        return a[1].strip()[:40]
+    if a[0] == "tok":
+        return repr(a[1][1]) if isinstance(a[1], tuple) and a[1][0] == "int" else "<value>"
+    return f"{a[3]!r} x ({' '.join(_show_atom(x) for x in a[2][:4])} ...)"
+
+
+# ================================================================================================== default_values directly
+
+def check_default_values(ctx, tree, agg, stats=None):
+    I = Interp(tree, ctx.repo.scope_of, V)
+    fn = I.globals.lookup("default_values")
+    kinds, dtypes = I.globals.lookup("VTKFieldType"), I.globals.lookup("VTKDataType")
+    if not isinstance(fn, Func) or not isinstance(kinds, UserClass) or not isinstance(dtypes, UserClass):
+        return      # no such public function (any more): the padding is judged from the written arrays alone
+    if fn.scope is not None:
+        ctx.touch(fn.scope)
+    want = {"SCALARS": (1, 1), "VECTORS": (1, 3), "TENSORS": (3, 3)}
+    for ftname, shape in want.items():
+        ft = kinds.members.get(ftname)
+        if ft is None:
+            continue
+        for dt in dtypes.members.values():
+            c = f"default_values({ftname}, {dt.name})"
+            try:
+                v = I.call(fn, [ft, dt], {}, None)
+                if v is None:
+                    agg.add(R6, c, False, f"default_values returns None for {ftname} fields of data type {dt.name}: nothing to pad with", (fn, None), "")
                     continue
-                if not ((isinstance(tst.ops[0], ast.Eq) and pol) or (isinstance(tst.ops[0], ast.NotEq) and not pol)):
+                s2 = N.atleast(I, v, 2).shape
+                got = tuple(pconst(I.norm(d)) for d in s2)
+                raw = tuple(pconst(I.norm(d)) for d in N.shape_of(I, v))
+            except Undecidable as e:
+                agg.add(R6, c, None, f"default_values({ftname}, {dt.name}) is not evaluated: {e.msg}", _prov_of_exc(e) or (fn, None), "")
+                continue
+            except ProgramError as e:
+                agg.add(R6, c, False, f"default_values({ftname}, {dt.name}) raises: {e.msg}", _prov_of_exc(e) or (fn, None), "")
+                continue
+            ok = got == shape
+            cols = stats.get("layout", {}).get((ftname, dt.name)) if stats else None
+            if cols and None not in got:
+                # judged against the arrays the writer really stores for such fields: stacking the record under them must add one entity
+                comps = COMPS[ftname]
+                if any(c != got[1] for c in cols):
+                    agg.add(R6, c, False, f"default_values returns a record of shape {raw} for {ftname} fields of data type {dt.name}; the arrays stored for such "
+                                          f"fields have {sorted(cols)[0]} columns: stacking the record under them raises", (fn, None), "")
                     continue
-                for l_, r_e in ((tst.left, tst.comparators[0]), (tst.comparators[0], tst.left)):
-                    r_ = ev.ev(r_e)
-                    if isinstance(r_, Rat) and (src(l_).endswith(".shape[0]") or src(l_).startswith("len(")):
-                        found = (tst, r_)
-            if found is None:
-                ok = False
-                shown = "no record-count guard"
-                break
-            good = A.equal(found[1], A.atom(want_sym))
-            ok = good if ok is None else (ok and good)
-            shown = f"{src(found[0])} with count {found[1]!r}"
-        ctx.decide(rule, ok, m, None, construct=f"{mname}:admits-section-count",
-                   detail=f"admits a field only if {shown}", bad_detail=f"{mname} admits fields under `{shown}`; its section needs {want_sym} records")
+                ok = got[0] * got[1] == comps
+                agg.add(R6, c, ok, (f"default_values returns a record of shape {raw} for {ftname} fields of data type {dt.name}; stacked under the stored "
+                                    f"array it adds {got[0] * got[1]} numbers where one point / cell takes {comps}: the padded array does not hold one record "
+                                    f"per point/cell") if not ok else f"padding record of shape {raw}: one entity of {comps} numbers under the stored arrays", (fn, None), "")
+                continue
+            if not ok:
+                # the expectation above presumes the row layout of the stored arrays; what decides is what the writer makes of the record
+                seen = [agg.items.get((R6, f"{sec}:{ftname}[{dt.name}]:one-record-per-extra-entity")) for sec in ("POINT_DATA", "CELL_DATA")]
+                seen = [it for it in seen if it is not None]
+                if seen and not any(it["bad"] or it["und"] for it in seen):
+                    agg.add(R6, c, True, f"padding record of shape {raw}; the padded arrays written with it hold one record per point / cell", (fn, None), "")
+                    continue
+                if not any(it["bad"] for it in seen):
+                    ok = None
+            agg.add(R6, c, ok, (f"default_values returns a record of shape {raw} for {ftname} fields of data type {dt.name}; stacked under the data it adds "
+                                f"{got[0]} row(s) of {got[1]} instead of {shape[0]} row(s) of {shape[1]}: the padded array does not hold one record per point/cell")
+                    if ok is not True else f"padding record of shape {raw}", (fn, None), "")
+
+
+# ================================================================================================== entry point
+
+def run(ctx):
+    mod = ctx.need_module(V)
+    cls = ctx.need(f"{V}:VTKWriter")
+    for m in ("__init__", "write", "add_sphere", "add_contact_edges", "add_nodal_field", "add_cell_field"):
+        ctx.need(f"{V}:VTKWriter.{m}")
+    agg = Agg()
+    stats = {"funcs": {}}
+    ctx.guard(_all, ctx, mod.tree, agg, stats)
+    agg.emit(ctx, cls)
+    ctx.trust("NumPy shape semantics of array / zeros / full / tile / vstack / hstack / concatenate / atleast_2d / reshape / indexing and Python's "
+              "str.format / join / file.write semantics as modelled by rules/C20_np.py, rules/C20_text.py, rules/C20_ops.py")
+    ctx.trust("mesh model: triangles of order d have (d+1)(d+2)/2 nodes and 3 vertex nodes (mesh.parentElement.vertexNodes); for order 1 "
+              "mesh.simplexNodesOrdinals are all nodes; otherwise the numbers of nodes, simplex nodes and elements are independent positive integers; "
+              "add_sphere receives a 2-vector, add_contact_edges an (m, 2) array")
+    ctx.assume("one element type per mesh; fields are admitted only through add_nodal_field / add_cell_field; field names contain no whitespace "
+               "and differ from the names the writer adds itself")
+
+
+def _all(ctx, tree, agg, stats):
+    for sit in situations():
+        try:
+            run_situation(ctx, tree, sit, agg, stats)
+        except (AttributeError, IndexError, KeyError, TypeError, ValueError, RecursionError, AssertionError) as e:
+            # the interpreter met a shape of code / value it was not written for: undecided for this situation, never a violation
+            import traceback
+            tb = traceback.extract_tb(e.__traceback__)[-1]
+            agg.add(R9, "write()-interpretable", None, f"internal limitation of the interpreter: {type(e).__name__}: {e} "
+                                                      f"(at {tb.filename.split('/')[-1]}:{tb.lineno})", None, str(sit))
+    check_default_values(ctx, tree, agg, stats)
 
 
 def variants(repo):
     from optilint.selftest import Variant, sub, sub_in_func, alpha_rename, reformat
+    from . import C20_variants as RV
     P = "optimism/VTKWriter.py"
     return [
         Variant("integer tensor padding is one row", P, sub("            return np.array([[0, 0, 0],[0, 0, 0],[0, 0, 0]])", "            return np.array([0, 0, 0])"), "D2/T6-padding-record-shape"),
@@ -742,4 +917,24 @@ def variants(repo):
         Variant("second header", P, sub_in_func("VTKWriter._write_cell_types", "        for e in self.contactEdges:           \n", "        vtkFile.write('CELL_TYPES {}\\n'.format(nelements))\n        for e in self.contactEdges:           \n"), "D2/T9-symbolic-lengths"),
         Variant("admission against mesh nodes", P, sub("        nnodes = self.mesh.coords[self.outputNodes].shape[0]\n        nodalData = nodalData[self.outputNodes]", "        nnodes = self.mesh.coords.shape[0]"), "D2/T9-symbolic-lengths"),
         Variant("reformat", P, reformat(), None),
+        # ---- deeper restructurings of the whole output half (rules/C20_variants.py) and breaking edits inside them
+        Variant("sections return lists of lines, joined once", P, RV.collect_lines, None),
+        Variant("sections are generators, writelines in a with block", P, RV.generators, None),
+        Variant("lines joined without separator", P, RV.then(RV.collect_lines, sub("vtkFile.write('\\n'.join(lines) + '\\n')", "vtkFile.write(''.join(lines) + '\\n')")), "D2/T9-symbolic-lengths"),
+        Variant("one cell type line per element for the edges", P, RV.then(RV.collect_lines, sub("lines += ['3'] * self.contactEdges.shape[0]", "lines += ['3'] * nelements")), "D2/T9-symbolic-lengths"),
+        Variant("generator pads one record too many", P, RV.then(RV.generators, sub("        for _ in range(n):\n            data = np.vstack", "        for _ in range(n + 1):\n            data = np.vstack")), "D2/T9-symbolic-lengths"),
+        Variant("generator pads the stored record", P, RV.then(RV.generators, sub("point = {k: self._pad(v, len(self.spheres)) for k, v in self.nodalFields.items()}",
+                "point = self.nodalFields\n        for k in point:\n            point[k] = self._pad(point[k], len(self.spheres))")), "D1/T11-write-is-pure"),
+        # ---- subtle breaking edits of the reference writer
+        Variant("contact edge record announces 3 indices", P, sub("vtkFile.write('2 {} {}\\n'.format(e[0],e[1]))", "vtkFile.write('3 {} {}\\n'.format(e[0],e[1]))"), "D2/T9-symbolic-lengths"),
+        Variant("quadratic cell type on vertex connectivity", P, sub("            self.vtkCellType = 5", "            self.vtkCellType = 22"), "D2/T9-symbolic-lengths"),
+        Variant("no newline after the connectivity table", P, sub("        vtkFile.write(write_matrix_as_table(vtkConnectivity))\n        vtkFile.write('\\n')", "        vtkFile.write(write_matrix_as_table(vtkConnectivity))"), "D2/T9-symbolic-lengths"),
+        Variant("point data before cell types", P, sub("        self._write_cell_types(vtkFile)\n        self._write_nodal_fields(vtkFile)", "        self._write_nodal_fields(vtkFile)\n        self._write_cell_types(vtkFile)"), "D2/T9-symbolic-lengths"),
+        Variant("two-component points", P, sub("        coords3D = np.zeros((nnodes, 3))\n        coords3D[:, 0:dim] = coords", "        coords3D = coords"), "D2/T9-symbolic-lengths"),
+        Variant("cell admission by >=", P, sub("        if cellData.shape[0] == nelements:", "        if cellData.shape[0] >= nelements:"), "D2/T9-symbolic-lengths"),
+        Variant("tensor rows of nine", P, sub("            field3D = field3D.reshape((-1,3))", "            field3D = field3D.reshape((-1,9))"), "D2/T9-symbolic-lengths"),
+        Variant("two radii per sphere", P, sub("        self.sphereRadii.append( radius )", "        self.sphereRadii.append( radius )\n        self.sphereRadii.append( radius )"), "D2/T9-symbolic-lengths"),
+        Variant("write scales the mesh in place", P, sub("            nnodes = coords.shape[0]\n\n            for field in nodalFields:", "            nnodes = coords.shape[0]\n            self.mesh.coords[:, 0] *= 1.0\n\n            for field in nodalFields:"), "D1/T11-write-is-pure"),
+        Variant("lookup table after vectors", P, sub("                vtkFile.write('VECTORS {} {}\\n'.format(field, dataType.value));", "                vtkFile.write('VECTORS {} {}\\n'.format(field, dataType.value));\n                vtkFile.write('LOOKUP_TABLE default\\n')"), "D2/T9-symbolic-lengths"),
+        Variant("data type written by member name", P, sub("vtkFile.write('TENSORS {} {}\\n'.format(field, dataType.value));", "vtkFile.write('TENSORS {} {}\\n'.format(field, dataType));"), "D2/T9-symbolic-lengths"),
     ]
